@@ -1,2 +1,3 @@
 import SsoSpec.C15
 import SsoSpec.C16
+import SsoSpec.C17
